@@ -621,7 +621,7 @@ def legacy_no_witness(ctx):
 
 @PROP.obligation('C06.witness-default', canaries=[
     mut.replace_stmt('transactions', 'Input.__init__', 'if not self.witnesses:', "self.witness_type = 'legacy'", 'input with a witness stack and a script type defaults to legacy', nth=0),
-    mut.replace_expr('transactions', 'Input.__init__', "['p2sh_p2wpkh', 'p2sh_p2wsh']", "['p2sh_p2wpkh']", 'p2sh_p2wsh inputs default to legacy'),
+    mut.replace_expr('transactions', 'Input.__init__', "['p2sh_p2wpkh', 'p2sh_p2wsh']", "['p2sh_p2wpkh']", 'p2sh_p2wsh inputs default to legacy', nth=1),
     mut.replace_expr('transactions', 'Input.__init__', 'witnesses[cursor + size:cursor + item_size + size]', 'witnesses[cursor + size:cursor + item_size]', 'serialised witness items cut short'),
 ])
 def witness_default(ctx):
